@@ -79,6 +79,49 @@ fn fmt_std<T: Display + LowerExp + UpperExp>(v: &T, kind: &str, fprec: Option<us
         _ => panic!("harness: kind {} is not available in this base", kind),
     }
 }
+/// layout forms (beyond C08: the statement is about digits, not padding): the same value and precision printed with a width and
+/// fill / alignment / sign / zero flags; the monitor compares each with the unpadded text laid out as core::fmt pads numbers
+fn pad_forms<T: Display + LowerExp>(v: &T, kind: &str, fprec: Option<usize>) -> Value {
+    let sci = kind != "display";
+    let plain = guarded(|| match (sci, fprec) {
+        (false, None) => format!("{}", v), (false, Some(p)) => format!("{:.p$}", v, p = p),
+        (true, None) => format!("{:e}", v), (true, Some(p)) => format!("{:.p$e}", v, p = p) });
+    let plus = guarded(|| match (sci, fprec) {
+        (false, None) => format!("{:+}", v), (false, Some(p)) => format!("{:+.p$}", v, p = p),
+        (true, None) => format!("{:+e}", v), (true, Some(p)) => format!("{:+.p$e}", v, p = p) });
+    let none = json!({"plain": [], "plus": [], "items": []});
+    let (plain, plus) = match (plain, plus) { (Ok(a), Ok(b)) => (a, b), _ => return none };
+    if plain.len() > 60 {
+        return none;
+    }
+    let mut items = Vec::new();
+    macro_rules! form {
+        ($name:literal, $align:literal, $fill:literal, $plus:literal, $zero:literal, $spec:literal, $w:expr) => {{
+            let w: usize = $w;
+            let r = guarded(|| match (sci, fprec) {
+                (false, None) => format!(concat!("{:", $spec, "w$}"), v, w = w),
+                (false, Some(p)) => format!(concat!("{:", $spec, "w$.p$}"), v, w = w, p = p),
+                (true, None) => format!(concat!("{:", $spec, "w$e}"), v, w = w),
+                (true, Some(p)) => format!(concat!("{:", $spec, "w$.p$e}"), v, w = w, p = p),
+            });
+            items.push(json!({"form": $name, "align": $align, "fill": $fill as u8, "plus": $plus, "zero": $zero, "w": w,
+                "out": match r { Ok(t) => json!({"k": "ok", "text": t.as_bytes()}), Err(m) => json!({"k": "panic", "msg": m}) }}));
+        }};
+    }
+    for dw in [0usize, 1, 4] {
+        let w = plain.len() + dw;
+        form!("n", "n", b' ', false, false, "", w);
+        form!("r", "r", b' ', false, false, ">", w);
+        form!("l", "l", b'*', false, false, "*<", w);
+        form!("c", "c", b'_', false, false, "_^", w + 1);
+        form!("p", "n", b' ', true, false, "+", w + 1);
+        // (the zero flag together with an explicit alignment is left out: the scientific formats then pad with the fill
+        //  character on the aligned side while Display pads with zeros - neither is stated anywhere)
+        form!("z", "n", b' ', false, true, "0", w);
+        form!("pz", "n", b' ', true, true, "+0", w + 2);
+    }
+    json!({"plain": plain.as_bytes(), "plus": plus.as_bytes(), "items": items})
+}
 /// print, then (for the record) parse the text back with the library
 fn print_out<const B: Word>(text: Result<String, String>) -> Value {
     match text {
@@ -96,6 +139,7 @@ fn run_print(log: &mut Log, c: &Value, src: &str) {
     let fp = c["fprec"].as_i64().unwrap_or(-1);
     let fprec = if fp < 0 { None } else { Some(fp as usize) };
     let mut outs = Outs::new();
+    let mut pads = json!({"plain": [], "plus": [], "items": []});
     let mut xobs = c["x"].clone();
     let std_kind = matches!(kind, "display" | "lexp" | "uexp");
     dispatch_mode!(mode, R => {
@@ -106,6 +150,9 @@ fn run_print(log: &mut Log, c: &Value, src: &str) {
                     Ok(x) => {
                         xobs = enc_f(&x);
                         outs.0.push(("fbig".into(), print_out::<B>(guarded(|| fmt_std(&x, kind, fprec)))));
+                        if kind != "uexp" {
+                            pads = pad_forms(&x, kind, fprec);
+                        }
                         // Repr has no rounding mode of its own (documented: rounds toward zero)
                         if fprec.is_none() || mode == "Zero" {
                             outs.0.push(("repr".into(), print_out::<B>(guarded(|| fmt_std(x.repr(), kind, fprec)))));
@@ -145,7 +192,7 @@ fn run_print(log: &mut Log, c: &Value, src: &str) {
         }
     });
     log.ev(json!({"prop": "C08", "op": "print", "base": base, "mode": mode, "x": xobs, "kind": kind, "fprec": fp,
-        "src": src, "outs": outs.grouped()}));
+        "src": src, "outs": outs.grouped(), "pads": pads}));
 }
 
 // ---------------------------------------------------------------- convert
